@@ -24,9 +24,11 @@ struct SchemaCompileScn : Scenario {
 template <int Mode> struct SchemaValidateScn : Scenario {
     json schema, inst; std::string ib;
     std::unique_ptr<jsonschema::json_schema<json>> compiled;
+    bool verdict0 = false;
     void setup(const MVal& p) override {
         schema = json::parse(sim::plan_text(p, "schema")); inst = json::parse(sim::plan_text(p, "instance")); ib = text(inst);
         compiled.reset(new jsonschema::json_schema<json>(jsonschema::make_json_schema(schema)));
+        verdict0 = compiled->is_valid(inst);
     }
     std::string run() override {
         if (Mode == 0) return compiled->is_valid(inst) ? "valid" : "invalid";
@@ -44,6 +46,7 @@ template <int Mode> struct SchemaValidateScn : Scenario {
         // compiled schema still gives the fault-free verdict
         bool v1 = compiled->is_valid(inst); bool v2 = compiled->is_valid(inst);
         if (v1 != v2) return "compiled schema unstable after fault";
+        if (v1 != verdict0) return "compiled schema gives a different verdict after a failed validation";
         return "";
     }
 };
